@@ -53,13 +53,19 @@ func (c19) Gen(seed uint64, idx int, tier string) *Scenario {
 		sb.WriteString("print 7\n")
 		p = &gen.Prog{Src: []byte(sb.String())}
 		sc.Class = "long-run"
+	} else if class == "runtime-error" && (r.Chance(1, 150) || (tier == "thorough" && r.Chance(1, 30))) {
+		// the one runtime error that is raised after the instruction's switch: a full operand stack
+		p = &gen.Prog{Src: gen.LimitProgram(r, prng.Pick(r, []string{"locals", "fieldtemps", "rightnest"}), false)}
+		sc.Class = "stack-overflow"
 	} else if class == "valid" && r.Chance(1, 5) {
 		// many locals: slot numbers and POPN counts that need multi-byte operands
 		p = manyLocals(r, cfg)
 	}
 	switch class {
 	case "runtime-error":
-		gen.AddPlant(r, p, prng.Pick(r, gen.RuntimePlants), cfg)
+		if len(p.Toks) > 0 {
+			gen.AddPlant(r, p, prng.Pick(r, gen.RuntimePlants), cfg)
+		}
 		sc.Src = p.Src
 	case "syntax-late":
 		sc.Src = gen.WithSyntaxErr(r, p, false)
